@@ -14,6 +14,7 @@ import (
 	"os"
 	"reflect"
 	"runtime"
+	"sort"
 	"strconv"
 	"strings"
 	"sync"
@@ -1183,6 +1184,160 @@ func c19StatePaused(dst []byte, f []string) []byte {
 	return dst
 }
 
+// ---- writers shared between goroutines (mwr)
+
+type c19OutFill struct {
+	typ  MessageType
+	n    int
+	fill byte
+}
+
+func (o c19OutFill) MarshalBinary() ([]byte, error) {
+	b := make([]byte, o.n)
+	for i := range b {
+		b[i] = o.fill
+	}
+	return b, nil
+}
+func (o c19OutFill) Type() MessageType { return o.typ }
+
+// c19Sink is the io.Writer under a shared writer: it serialises its own calls (so that the bytes
+// stay inspectable whatever the writer above does) and yields inside each call.
+type c19Sink struct {
+	mu  sync.Mutex
+	buf []byte
+}
+
+func (k *c19Sink) Write(p []byte) (int, error) {
+	k.mu.Lock()
+	k.buf = append(k.buf, p...)
+	k.mu.Unlock()
+	runtime.Gosched()
+	return len(p), nil
+}
+
+// c19SharedWriter: "mwr <via> <par> <ver> typ:len:id:fill;..": the calls are dealt round-robin to par
+// goroutines that all write through ONE writer - via w: msgWriter.Write(id, out) over a c19Sink;
+// via c: SendNoWait(message with that id) on one connected Client (version ver) - and the byte stream
+// that came out is cut into frames by the length fields.  Answer: the frames sorted by id (stable),
+// each "<header hex>:<ok|bad>" (bad = a payload byte is not the fill byte announced for that id, or
+// the id was not written), "!rest=<hex>" if the stream does not end on a frame boundary, "!err=<n>"
+// calls that returned an error.
+func c19SharedWriter(dst []byte, f []string) []byte {
+	via := f[1]
+	par, _ := strconv.Atoi(f[2])
+	ver, _ := strconv.Atoi(f[3])
+	type item struct {
+		typ, n int
+		id     uint32
+		fill   byte
+	}
+	var items []item
+	fillOf := map[uint32]byte{}
+	for _, it := range strings.Split(f[4], ";") {
+		v := strings.Split(it, ":")
+		t, _ := strconv.Atoi(v[0])
+		n, _ := strconv.Atoi(v[1])
+		id, _ := strconv.ParseUint(v[2], 10, 32)
+		fl, _ := strconv.Atoi(v[3])
+		items = append(items, item{t, n, uint32(id), byte(fl)})
+		fillOf[uint32(id)] = byte(fl)
+	}
+	var stream []byte
+	var errs int32
+	if via == "w" {
+		sink := &c19Sink{}
+		mw := newMsgWriter(sink, VersionNum(ver))
+		c19Run(len(items), par, []func(int){func(i int) {
+			it := items[i]
+			if mw.Write(messageID(it.id), c19OutFill{MessageType(it.typ), it.n, it.fill}) != nil {
+				atomic.AddInt32(&errs, 1)
+			}
+		}})
+		stream = sink.buf
+	} else {
+		hist := "conn,first"
+		if ver > 1 {
+			hist = "conn,first,gsv:1:2,spv"
+		}
+		s := c19Establish("v"+strconv.Itoa(ver), hist)
+		defer s.end()
+		s.l.settle()
+		s.l.note(func() { s.l.wire = s.l.wire[:0] })
+		want := 0
+		c19Run(len(items), par, []func(int){func(i int) {
+			it := items[i]
+			m, refused := c19Build("new", MessageType(it.typ), 0)
+			if it.n > 0 && !refused {
+				data, _ := c19OutFill{MessageType(it.typ), it.n, it.fill}.MarshalBinary()
+				var err error
+				m, err = NewByteMessage(MessageType(it.typ), data)
+				refused = err != nil
+			}
+			if !refused {
+				m.id = messageID(it.id)
+				ctx, cancel := context.WithTimeout(s.ctx, c19Patience)
+				refused = s.c.SendNoWait(ctx, m) != nil
+				cancel()
+			}
+			if refused {
+				atomic.AddInt32(&errs, 1)
+			} else {
+				s.l.note(func() { want += 10 + it.n })
+			}
+		}})
+		s.l.wait(c19Patience, func() bool { return len(s.l.wire) >= want || s.l.connDone })
+		s.l.mu.Lock()
+		stream = append([]byte(nil), s.l.wire...)
+		s.l.mu.Unlock()
+	}
+	type frame struct {
+		id  uint32
+		tok string
+	}
+	var frames []frame
+	pos := 0
+	for pos+10 <= len(stream) {
+		n := int(uint32(stream[pos+2])<<24 | uint32(stream[pos+3])<<16 | uint32(stream[pos+4])<<8 | uint32(stream[pos+5]))
+		if n < 10 || pos+n > len(stream) {
+			break
+		}
+		id := uint32(stream[pos+6])<<24 | uint32(stream[pos+7])<<16 | uint32(stream[pos+8])<<8 | uint32(stream[pos+9])
+		fill, known := fillOf[id]
+		ok := known
+		for _, b := range stream[pos+10 : pos+n] {
+			if b != fill {
+				ok = false
+			}
+		}
+		tok := hex.EncodeToString(stream[pos:pos+10]) + ":ok"
+		if !ok {
+			tok = hex.EncodeToString(stream[pos:pos+10]) + ":bad"
+		}
+		frames = append(frames, frame{id, tok})
+		pos += n
+	}
+	sort.SliceStable(frames, func(a, b int) bool { return frames[a].id < frames[b].id })
+	for i, fr := range frames {
+		if i > 0 {
+			dst = append(dst, ' ')
+		}
+		dst = append(dst, fr.tok...)
+	}
+	if len(frames) == 0 {
+		dst = append(dst, '-')
+	}
+	if pos < len(stream) {
+		dst = append(dst, " !rest="...)
+		dst = append(dst, hex.EncodeToString(stream[pos:])...)
+	}
+	if errs > 0 {
+		dst = append(dst, " !err="...)
+		dst = strconv.AppendInt(dst, int64(errs), 10)
+	}
+	return dst
+}
+
 func c19Csv(s string) []uint64 {
 	var out []uint64
 	for _, f := range strings.Split(s, ",") {
@@ -1266,6 +1421,7 @@ func c19Decode(dst []byte, c *Client, conn *c19Conn, buf []byte) []byte {
 //	snd <cfg> <hist> <api> <plen> <types>   see c19StateSend
 //	wfl <cfg> <hist> <via> <k> <kind> <then> <v:t:l:i;..>   see c19StateWriteFault
 //	rpz <cfg> <hist> <kind> <hex/hex/..>   see c19StatePaused
+//	mwr <via> <par> <ver> t:l:id:fill;..   see c19SharedWriter
 //	tables                            JSON dump of the message-type functions for all codes
 func TestVerifC19(t *testing.T) {
 	lines, w, done := verifIO(t)
@@ -1401,6 +1557,8 @@ func TestVerifC19(t *testing.T) {
 			out = c19StateWriteFault(out, f)
 		case "rpz":
 			out = c19StatePaused(out, f)
+		case "mwr":
+			out = c19SharedWriter(out, f)
 		case "tables":
 			out = append(out, c19Tables(t)...)
 		default:
